@@ -76,6 +76,16 @@ CHECKS = {
               "computed from go/parser positions (an oracle independent of the model)."),
         note="A stand-alone comment that is the last thing of its block, precedes a case clause or sits inside a multi-line expression, and files with //line directives, are left unspecified (DESIGN 5.1).",
         technique="Coq proof (pruned-walk = first node after the comment; marker = filter; first-unsuppressed-use) + model and text-oracle correspondence through the real binary"),
+    "C17": dict(
+        text=("Theorems (Coq): every diagnostic of the four AST checkers carries a code of the table regenerated from codes.go, of the category of the checker that produced it (per-checker code "
+              "lemmas + by-computation obligations on the table); the rendered message is `error: [CODE] message` first and, whenever an excerpt is rendered, ends with the help line of the "
+              "code's category, whose URL (regenerated from codes.go) is the category's documentation page; every diagnostic stems from a kept file of the package (C14); `// @ignore CODE` "
+              "parses to exactly [CODE] for all 16 codes; one more marker [CODE] over the diagnostic's line suppresses it and leaves every diagnostic on another line, or with another table "
+              "code, decided as before. Tied to the code on every diagnostic of generated worlds (all 16 codes, two configurations): header shape, table membership, analyzer of the category "
+              "(names regenerated from analyzer.go), file of the reporting package and not excluded, help line; FULL message text byte-equal to the model's rendering for IMM/CTOR/TONL/PKGO; "
+              "a stratified sample re-run with `// @ignore CODE` appended (C07 text oracle + model); text-mode exit status vs printed diagnostics."),
+        note="IMPL messages are checked for shape/analyzer/URL/suppressibility on the implementation only until the @implements model lands. Lines already ending in a // comment are skipped for the suppression step. Exit status: multichecker's (library behaviour, observed).",
+        technique="Coq proof (code lemmas per checker, message shape, own-code marker) + per-diagnostic and full-text correspondence through the real binary"),
     "C15": dict(
         text=("Obligations (Coq, by computation on the seven regex syntax trees regenerated from the source with Go's own regexp/syntax): all classes within ASCII, nothing untranslated. "
               "The parsers (regex + split/trim/upper post-processing) and the reader's attachment rules are the executable model run against the real readers: exhaustive token sequences per "
